@@ -132,4 +132,9 @@ let run_line (line : string) : string =
                       (match r.rr_rdname with Some ls -> hex_of_bytes (dotted ls) | None -> "_")) l) in
            Printf.sprintf "OK %d %d %s %d an=[%s] ns=[%s] ar=[%s]" (int_of_n m.m_id) (if m.m_qr then 1 else 0)
              (hex_of_bytes (dotted m.m_qname)) (int_of_n m.m_qtype) (rrs m.m_answers) (rrs m.m_authority) (rrs m.m_additional))
+  | [ "E"; qtype; id; edns; nm ] ->
+      (* (C10) the client's query encoder on an arbitrary name / type / id *)
+      (match dns_encode_query (nat 4096) (ios edns <> 0) (nn (ios id)) (nn (ios qtype)) (bytes_of_hex nm) with
+       | None -> "NOSEND 0"
+       | Some dg -> hex_of_bytes dg)
   | _ -> "UNKNOWN-CASE"
